@@ -138,8 +138,10 @@ PROPS = {
                       "input() pushes a read frame holding exactly the input's padded bits. This is the property's 'independent of where values sit in memory' at the level "
                       "where it is implemented. PARTIAL: the per-combinator arms of exec_with_tracker and the jets are not under contract.",
         "level_note": "Not decided by proof: the combinator arms of exec_with_tracker (watched: a change leaves the run undecided), exec_jet, the C jets themselves. In the thorough tier and as "
-                      "fallback a BOUNDED native enumeration (c05_machine_semantics_replay: ~700 executions of jet-free programs compared with a direct evaluator of the big-step semantics, "
-                      "debug assertions on) stands in for them; it found defect D8 (zero-width outputs returned as unit), fixed in /repo. Assumed as for C07.",
+                      "fallback two BOUNDED native enumerations stand in for them: c05_machine_semantics_replay (960 executions - several thousand in the thorough tier - of programs over every "
+                      "combinator incl. disconnect (the right branch's root reaches the left branch), assertl / assertr and fail nodes (executions that must FAIL), compared with a direct evaluator of the "
+                      "big-step semantics, debug assertions on; it found defect D8 - zero-width outputs returned as unit - fixed in /repo) and c05_jet_semantics_replay (2 x 66 Core / Elements "
+                      "arithmetic, logic and comparison jets through the real dispatch tables and FFI against integer arithmetic). The generated c_jet_ptr / source_ty / target_ty tables are watched. Assumed as for C07.",
         "assumptions": ["data buffer shorter than 2^60 bytes"],
         "not_decided": ["per-combinator semantics of exec_with_tracker", "exec_jet and jet functions (C code)"],
         "explanation": "",
